@@ -39,6 +39,16 @@ class LazyMap(SOpaque):
         self.log = []                           # ("set", key, value) | ("del", key)
         self.uid = next(_ids)
 
+    @property
+    def nonempty(self):
+        """truthiness: known only for a map all of whose entries are known (a dict the code built itself)"""
+        return bool(self.entries) if self.complete else None
+
+    def length(self, I):
+        if not self.complete:
+            raise Unsupported("len of a map of unknown content")
+        return len(self.entries)
+
     # -- core ----------------------------------------------------------------------------------------------------------
     def lookup(self, I, k):
         """returns (found: bool, value)"""
@@ -468,3 +478,20 @@ class ElemList(SOpaque):
 
     def deepcopy_hook(self):
         return ElemList(self.name + "'", self.sort, self.members, self.count, self.witness)
+
+
+class UnknownSet(SOpaque):
+    """a python set of unknown content: membership is an unknown boolean -- but asking it for an UNHASHABLE value (a list, a
+    dict, an instance of a class that defines __eq__ without __hash__, e.g. an attrs class) raises TypeError, as in python"""
+
+    def __init__(self, name):
+        super().__init__(name, cls=set)
+
+    def contains(self, I, x):
+        from .symexec import SDict
+        if isinstance(x, SV):
+            x = I.view(x)
+        cls = getattr(x, "cls", None)
+        if isinstance(x, (SList, SDict, SSet)) or (isinstance(x, SObj) and isinstance(cls, type) and getattr(cls, "__hash__", 1) is None):
+            I.raise_(TypeError, f"unhashable type: '{getattr(cls, '__name__', type(x).__name__)}'")
+        return I.fresh(f"member_of_{self.name}", z3.BoolSort())
